@@ -310,6 +310,14 @@ class Project(MessageHandler):
         return 60 * 60
 
     def schedule(self) -> bool:
+        # A project is scheduled once. Callers do call this again (the CLI schedules the
+        # project the parser has already scheduled); a second pass must not change anything.
+        # It used to: limit counters and resource scoreboards were reset while the placed
+        # tasks kept their bookings, so tasks that had not fitted were retried against
+        # emptied counters and could be booked beyond their limits.
+        if getattr(self, "_scheduleDone", False):
+            return True
+
         # Extend project end if tasks require more time
         self._extendProjectEndIfNeeded()
 
@@ -340,6 +348,7 @@ class Project(MessageHandler):
             # Finish
             self.finishScenario(scIdx)
 
+        self._scheduleDone = True
         return True
 
     def prepareScenario(self, scIdx: int) -> None:
